@@ -138,6 +138,9 @@ def check (c):
         , ('rad',   [[g ['eps'], g ['sig'], 0.0, g ['c1']], [g ['eps2'], g ['sig2'], g ['h2']]], 'circular', g ['radials'])
         # a radial screen on uniform soil: both media with the same constants and height
         , ('radu',  [[g ['eps'], g ['sig'], 0.0, g ['c1']], [g ['eps'], g ['sig'], 0.0]], 'circular', g ['radials'])
+        # a radial screen without saying that the boundary is circular ('Specifying radials will automatically select
+        # circular boundary')
+        , ('rada',  [[g ['eps'], g ['sig'], 0.0, g ['c1']], [g ['eps2'], g ['sig2'], g ['h2']]], None, g ['radials'])
         ]
     pats = {}
     for name, media, bnd, rad in forms:
@@ -154,6 +157,22 @@ def check (c):
                 bad ('currents-identical', 'impedance-depends-on-ground', 'media form %s: feed impedance %r, ideal ground %r' % (name, sb.impedance, sa.impedance))
         pats [name] = (m, pattern (m))
     gi = pattern (mi)
+    mon ['radials-select-circular'] = 1
+    d = float (np.abs (10 ** (pats ['rada'][1][..., 2] / 10) - 10 ** (pats ['rad'][1][..., 2] / 10)).max () / (10 ** (pats ['rad'][1][..., 2] / 10)).max ())
+    if d > 1e-12 or pats ['rada'][0].boundary != 'circular':
+        bad ('radials-select-circular', 'radials-without-boundary-option', 'a radial screen given without a boundary option: boundary %r, pattern differs by %.3g of the maximum from the one with the circular boundary named' % (pats ['rada'][0].boundary, d), measured = d, allowed = 1e-12)
+    # ---- (b2) a first medium that conducts better and better, followed by ordinary soil: the pattern settles (every
+    # further factor of 100 changes it less), it does not jump
+    seq = []
+    for sg in (1e4, 1e6, 1e8, 1e10, 1e12):
+        m2, _, _ = solved (spec, [[g ['eps'], sg, 0.0, g ['c1']], [g ['eps2'], g ['sig2'], g ['h2']]], g ['boundary'])
+        seq.append (10 ** (pattern (m2) [..., 2] / 10))
+    steps = [float (np.abs (a - b).max () / b.max ()) for a, b in zip (seq [:-1], seq [1:])]
+    mon ['sigma-limit-2med'] = 1
+    for a, b in zip (steps [:-1], steps [1:]):
+        if not (b <= a / 3 or b <= 1e-9):
+            bad ('sigma-limit-2med', 'sigma-convergence-two-media', 'first of two media with sigma = 1e4 .. 1e12: successive pattern changes %s (each must be at most a third of the one before)' % (['%.2e' % x for x in steps],))
+            break
     # ---- (b) conductivity limit
     sel  = np.ones (gi.shape [:2], bool)
     sel [-1] = False           # 85 deg zenith = 5 deg elevation kept; drop nothing else
